@@ -90,11 +90,11 @@ func SignCOSE(ch *pki.Chain, prot []envcodec.KV, payload []byte, signAlg *envcod
 // unsupported keys: the nearest shape).
 func NaturalAlg(kind string) *envcodec.AlgInfo {
 	switch kind {
-	case "rsa1024", "rsa1536", "rsa2048", "rsa2560":
+	case "rsa1024", "rsa1536", "rsa2048", "rsa2560", "rsa2049":
 		return envcodec.AlgByName("PS256")
-	case "rsa3072", "rsa3584":
+	case "rsa3072", "rsa3584", "rsa3073":
 		return envcodec.AlgByName("PS384")
-	case "rsa4096":
+	case "rsa4096", "rsa4097":
 		return envcodec.AlgByName("PS512")
 	case "p224", "p256":
 		return envcodec.AlgByName("ES256")
